@@ -14,6 +14,7 @@ DECIDED += "; R6 the delivery deadline saturates; R1 also: rule ids are unique a
 DECIDED += "; R7 rule objects (user values that may own other RuleGuards) are destroyed only after the registry's RefCell borrow is released"
 DECIDED += '; R4 also: the search key of the pending queue is the tuple (deliver_at, seq) in that order'
 DECIDED += '; R3 also: nothing is removed from the egress batch between the kernels and the rule chain'
+DECIDED += '; R8 EnterGuard::egress_all is called from Scheduler::tick only; the built-in Latency rule never answers Pass'
 ASSUMPTIONS = ["IndexMap::shift_remove preserves the order of the remaining entries; Vec::insert keeps order"]
 
 RULES = "turmoil_net::Net::rules"
